@@ -36,6 +36,7 @@ def kinds(nrec):
         'runtime_error': [('select a1, int(a2.split(";")[0])', poison0, None, None), ('select int(a2.split(";")[0]) * 2', poison1, None, None)],
         'parse_error': [("select a1 where a1 = 'k'", base0, None, None), ('select a1 limit many', base1, None, None)],
         'named': [('select a.name, a["val"]', base0, None, ['name', 'val']), ('select a.name, a["val"]', base1, None, ['val', 'name'])],
+        'order_fails_late': [('select a1, int(a2.split(";")[0]) order by a1', poison0, None, None), ('select a2 order by int(a2.split(";")[0]) desc', poison1, None, None)],
         'named_missing': [('select a["val"], NR', base0, None, ['name', 'val']), ('select a["val"], NR', base1, None, ['name', 'other'])],
         'numagg': [('select min(a2), max(a2), sum(a2), avg(a2), variance(a2), median(a2)', [[r[0], str(i + 1)] for i, r in enumerate(base0)], None, None),
                    ('select min(a2), max(a2), sum(a2), avg(a2), variance(a2), median(a2)', [[r[0], i + 1.75] for i, r in enumerate(base1)], None, None)],
@@ -183,6 +184,8 @@ def scenarios():
         ('select avg(a2), variance(a2), a1 group by a1', Tn, None, None),
         ('select distinct count a1 order by a1 desc', T0, None, None),
         ('select unnest([a1]), unnest([a2])', T0, None, None),          # parsing error raised inside the main loop
+        ('select a1, int(a2) order by a1 desc', [['k', '1'], ['m', 'bad'], ['k', '3']], None, None),      # fails at record 2 with rows already buffered for sorting
+        ('select a2, a1 order by a2', [['k', '7'], ['m', '5']], None, None),
         ('select a["val"], NR', [['k', '1'], ['m', '2']], None, ['name', 'val']),
         ('select a["val"], NR', [['k', '1'], ['m', '2']], None, ['name', 'other']),          # alone: No "val" field at record 1
         ('select min(a2), max(a2), sum(a2), avg(a2), variance(a2), median(a2)', Tn, None, None),
@@ -329,8 +332,8 @@ def main(tier, seed):
             shards.append({'part': 'history', 'prefix': [a, b], 'depth': depth - pre, 'fresh': hfresh, 'judge_prefix': True})
     res = core.run_shards('vf.checks.c16', shards)
     return core.finish(PID, tier, seed, res, t0,
-        rule='threads: all unordered pairs of 13 query kinds (same-kind pairs with different data) x every interleaving of their scheduling points (start, each get_record on input and join table, each write, finish) within the preemption bound, plan (records, bound) = %r; '
-             'histories: the complete tree of sequences of <= %d events over 20 scenarios, every node a forked live interpreter; states = interleavings + history nodes, transitions = baton grants + history edges; '
+        rule='threads: all unordered pairs of 14 query kinds (same-kind pairs with different data) x every interleaving of their scheduling points (start, each get_record on input and join table, each write, finish) within the preemption bound, plan (records, bound) = %r; '
+             'histories: the complete tree of sequences of <= %d events over 22 scenarios, every node a forked live interpreter; states = interleavings + history nodes, transitions = baton grants + history edges; '
              'non-trivial = schedules with >= 2 context switches / histories of length >= 1' % (plan, depth),
         assumptions=['scheduling points are exactly the points the property names; code between them runs atomically', 'the solo outcome is computed in a fresh python subprocess per query'],
         extra={'pairs': npairs, 'interleavings': total_interleavings, 'history_depth': depth, 'plan_records_and_preemption_bound': [[n, ('all' if b is None else b)] for n, b in plan]},
